@@ -45,7 +45,15 @@ func c16hm(s *Sink, a, b [2]int, class string) {
 		map[string]any{"op": "hhmm", "a": a, "b": b, "before": bf, "after": af, "equals": eq}, class, a != b)
 }
 
-var c16locs = []*time.Location{time.UTC, time.FixedZone("+0545", 5*3600+45*60), time.FixedZone("-0930", -(9*3600 + 30*60)), time.FixedZone("+14", 14*3600)}
+var c16locs = func() []*time.Location {
+	ls := []*time.Location{time.UTC, time.FixedZone("+0545", 5*3600+45*60), time.FixedZone("-0930", -(9*3600 + 30*60)), time.FixedZone("+14", 14*3600)}
+	for _, n := range []string{"America/New_York", "Australia/Lord_Howe", "Europe/London"} { // zones whose clocks go back
+		if l, err := time.LoadLocation(n); err == nil {
+			ls = append(ls, l)
+		}
+	}
+	return ls
+}()
 var c16n, c16d, c16segCount int
 
 func c16dt(s *Sink, d, t int64, class string) {
@@ -200,6 +208,32 @@ func runC16(o Opts) error {
 				c16dt(s, d, d+k, "datetime/second-straddle")
 				c16dt(s, d+k, d, "datetime/second-straddle")
 			}
+		}
+	}
+	// instants on both sides of, and inside, the hour that occurs twice when clocks go back (2023, three zones)
+	for _, zn := range []string{"America/New_York", "Australia/Lord_Howe", "Europe/London"} {
+		loc, err := time.LoadLocation(zn)
+		if err != nil {
+			continue
+		}
+		_, prev := time.Date(2023, 1, 1, 0, 0, 0, 0, time.UTC).In(loc).Zone()
+		for t := time.Date(2023, 1, 1, 0, 0, 0, 0, time.UTC); t.Year() < 2024; t = t.Add(30 * time.Minute) {
+			_, off := t.In(loc).Zone()
+			if off < prev {
+				T := t.UnixMilli()
+				pts := []int64{}
+				for _, dm := range []int64{-3600000, -1800000, -900000, -100, 0, 100, 900000, 1800000, 3599900, 3600000} {
+					pts = append(pts, T+dm)
+				}
+				for _, a := range pts {
+					for _, b := range pts {
+						for k := 0; k < len(c16locs); k++ { // every pair of carriers comes round
+							c16dt(s, a, b, "datetime/repeated-hour")
+						}
+					}
+				}
+			}
+			prev = off
 		}
 	}
 	n = 1500
